@@ -257,6 +257,24 @@ Theorem merged_tables_are_the_declarations : forall C k q,
 Proof. exact merged_tables_are_the_declarations_l. Qed.
 Print Assumptions merged_tables_are_the_declarations.
 
+(* No schema is skipped: every declaration of every block of every namespace is
+   found in the merged schema, in the table of its own symbol space. *)
+Theorem merge_skips_no_schema : forall C p,
+  NoDup (map pkey (placed_all C)) -> In p (placed_all C) ->
+  lookup_decl (decl_kind (p_decl p)) (p_ns p, decl_name (p_decl p)) (merged_schema C) = Some p.
+Proof. exact merge_skips_no_schema_l. Qed.
+Print Assumptions merge_skips_no_schema.
+
+(* The order of schema blocks ACROSS namespaces: two adjacent blocks of different
+   target namespaces may be swapped (all orders that keep each namespace's own
+   blocks in sequence are chains of such swaps) without changing any view. *)
+Theorem namespace_block_order_independent : forall pre b1 b2 post q,
+  b_ns b1 <> b_ns b2 ->
+  NoDup (map pkey (placed_all (pre ++ b1 :: b2 :: post))) ->
+  type_view (pre ++ b1 :: b2 :: post) q = type_view (pre ++ b2 :: b1 :: post) q.
+Proof. exact namespace_block_order_independent_l. Qed.
+Print Assumptions namespace_block_order_independent.
+
 (* ------------------------------------------------------------------ *)
 (* (4b) the model's view IS the denotation's, for every schema in guard *)
 (* ------------------------------------------------------------------ *)
@@ -400,12 +418,23 @@ Theorem wrapped_rule : forall unwrap eb parts,
 Proof. exact wrapped_rule_l. Qed.
 Print Assumptions wrapped_rule.
 
+(* <soap:body parts="..."> naming all parts of the message = no parts attribute *)
+Theorem body_parts_naming_all_is_default : forall tns unwrap eb ch ptops n li lo o mi mo,
+  find_ptop n ptops = Some o ->
+  message_parts tns ch (po_in o) = Some mi -> message_parts tns ch (po_out o) = Some mo ->
+  (forall p, In p mi -> existsb (N.eqb (pt_name p)) li = true) ->
+  (forall p, In p mo -> existsb (N.eqb (pt_name p)) lo = true) ->
+  link_op tns unwrap eb ch ptops (mkBOp n (Some li) (Some lo)) =
+  link_op tns unwrap eb ch ptops (mkBOp n None None).
+Proof. exact body_parts_naming_all_is_default_l. Qed.
+Print Assumptions body_parts_naming_all_is_default.
+
 Local Open Scope N_scope.
 Example wsdl_nonvacuous :
   let m  := WMessage 1 [mkPart 9 (Some (1, 20)) None] in
   let mo := WMessage 2 [] in
   let pt := WPortType 3 [mkPtOp 7 (Some (1, 1)) (Some (1, 2))] in
-  let bd := WBinding 4 (1, 3) true [7] in
+  let bd := WBinding 4 (1, 3) true [mkBOp 7 (Some [9]) None] in
   let sv := WService 5 [(6, (1, 4))] in
   let eb := fun q : qn => if qn_eqb q (1, 20) then Some false else None in
   link 1 true eb [sv; bd; WTypes; pt; mo; m] = link 1 true eb [WTypes; m; mo; pt; bd; sv] /\
